@@ -43,7 +43,14 @@ static inline void vset_f(VNum *o, long double v) { o->f = v; }
 #define VERIF_RESULT(out, e) do { (out)->tag = VTAG(e); \
     _Generic((e), float: vset_f, double: vset_f, long double: vset_f, unsigned long: vset_u, unsigned long long: vset_u, default: vset_i)((out), (e)); } while (0)
 #define VERIF_RESULT_BOOL(out, e) do { (out)->tag = T_bool; (out)->i = ((e) ? 1 : 0); } while (0)
-#define FEQ(a, b) ((a) == (b) || ((a) != (a) && (b) != (b)))
+/* "the same floating value": equal AND of the same sign (+0.0 and -0.0 compare equal but are different
+ * values: 1/x tells them apart), or both NaN */
+#ifdef VERIF_CBMC
+#define VERIF_SIGN(x) __CPROVER_signld((long double)(x))
+#else
+#define VERIF_SIGN(x) (__builtin_signbit((long double)(x)) != 0)
+#endif
+#define FEQ(a, b) (((a) == (b) && VERIF_SIGN(a) == VERIF_SIGN(b)) || ((a) != (a) && (b) != (b)))
 #define RES_EQ(out, e) ((out)->tag == VTAG(e) && _Generic((e), float: FEQ((out)->f, (long double)(e)), double: FEQ((out)->f, (long double)(e)), \
     long double: FEQ((out)->f, (long double)(e)), unsigned long: (out)->u == (uint64_t)(e), unsigned long long: (out)->u == (uint64_t)(e), \
     default: (out)->i == (int64_t)(e)))
